@@ -341,19 +341,16 @@ def _extract_attributes(element):
 
         # An element without text holds the empty string, not None.
         text = subel.text if subel.text is not None else ""
-        # The text is the value unless a recognised attribute says otherwise.
-        _v = text
+        # XML attributes are unordered: note what each recognised one says,
+        # then build the value.
+        datatype = langtag = ref = None
         for key, value in subel.attrib.items():
             if key == _ns_xsi("type"):
                 datatype = xml_qname_to_QualifiedName(subel, value)
-                if datatype == XSD_QNAME:
-                    _v = xml_qname_to_QualifiedName(subel, text)
-                else:
-                    _v = prov.model.Literal(text, datatype)
             elif key == _ns_prov("ref"):
-                _v = xml_qname_to_QualifiedName(subel, value)
+                ref = xml_qname_to_QualifiedName(subel, value)
             elif key == _ns_xml("lang"):
-                _v = prov.model.Literal(text, langtag=value)
+                langtag = value
             else:
                 warnings.warn(
                     "The element '%s' contains an attribute %s='%s' "
@@ -363,6 +360,15 @@ def _extract_attributes(element):
                     UserWarning,
                 )
 
+        # The text is the value unless a recognised attribute says otherwise.
+        if ref is not None:
+            _v = ref
+        elif datatype == XSD_QNAME:
+            _v = xml_qname_to_QualifiedName(subel, text)
+        elif datatype is not None or langtag is not None:
+            _v = prov.model.Literal(text, datatype, langtag)
+        else:
+            _v = text
         attributes.append((_t, _v))
 
     return attributes
